@@ -138,13 +138,36 @@ def rule_flag(ctx):
     sent_val = None
     if us.columns == ["sent_to_server"] and isinstance(uparams, (ast.Tuple, ast.List)) and uparams.elts:
         sent_val = lit(uparams.elts[0]) if us.set_values == ["?"] else (int(us.set_values[0]) if us.set_values[0].isdigit() else None)
-    keyed = [c_ for (c_, o, r) in us.where] == ["prekey_id"]
+    keyed = [(c_, o) for (c_, o, r) in us.where] == [("prekey_id", "=")]      # exactly the confirmed key, by equality
     ctx.check("C14.flag", null_ok and or_ok and unsent_val is not None, where(PKS, "LitePreKeyStore.loadUnsentPendingPreKeys", pn.line), ps.text,
               "the pending predicate must select keys whose flag is NULL or the unsent value", "pending = flag IS NULL OR flag = %r" % unsent_val)
     ctx.check("C14.flag", sent_val is not None and sent_val != unsent_val and bool(sent_val) and keyed, where(PKS, "LitePreKeyStore.setAsSent", un.line), us.text + " with %r" % sent_val,
               "marking a key as sent must write a value the pending predicate does not select (writes %r, pending selects NULL or %r), keyed by prekey_id" % (sent_val, unsent_val), "writes %r, which the pending predicate excludes" % sent_val)
     ctx.check("C14.flag", "sent_to_server" not in is_.columns, where(PKS, "LitePreKeyStore.storePreKey", inn.line), is_.text,
               "a freshly stored key must be pending: the insert must leave the sent flag unset", "new keys are stored with the flag unset (NULL = pending)")
+    # ... and once per confirmed id: the statement runs inside a loop over the ids it was given and binds the loop variable
+    sas = ctx.repo.method(PKS, "LitePreKeyStore", "setAsSent")
+    ps_ = params_of(sas)
+    loops = [l for l in ast.walk(sas) if isinstance(l, ast.For) and ps_ and unparse(l.iter) == ps_[0]]
+    per_id = False
+    for l in loops:
+        lv = l.target.id if isinstance(l.target, ast.Name) else None
+        for c_ in ast.walk(l):
+            if isinstance(c_, ast.Call) and isinstance(c_.func, ast.Attribute) and c_.func.attr in ("execute",) and len(c_.args) == 2 and lv and any(isinstance(x, ast.Name) and x.id == lv for x in ast.walk(c_.args[1])):
+                per_id = True
+        for c_ in ast.walk(sas):
+            if isinstance(c_, ast.Call) and isinstance(c_.func, ast.Attribute) and c_.func.attr == "executemany":
+                per_id = True
+    many = any(isinstance(c_, ast.Call) and isinstance(c_.func, ast.Attribute) and c_.func.attr == "executemany" for c_ in ast.walk(sas))
+    ctx.check("C14.flag", per_id or many, where(PKS, "LitePreKeyStore.setAsSent", sas.lineno), "one mark per confirmed id",
+              "exactly the keys named in the confirmed upload must be marked (one statement per id, bound to that id): a range or aggregate marks keys of other, unconfirmed uploads as sent - they are never offered again", "each id of the batch is marked by its own statement")
+    # no store accessor is memoised: a cached record outlives removePreKey / a replaced session
+    for k in model.classes:
+        for name, fn in sorted(k.methods.items()):
+            decs = [unparse(d) for d in fn.decorator_list]
+            cached = [d for d in decs if any(t in d for t in ("lru_cache", "cache", "memoize", "cached_property"))]
+            ctx.check("C14.flag", not cached, where(k.relpath, "%s.%s" % (k.name, name), fn.lineno), "%s.%s is not memoised" % (k.name, name),
+                      "the store method is wrapped in %s: a record it returned once is returned again after the row was deleted - a consumed one-time prekey stays usable for the rest of the process" % (cached[0] if cached else ""), "reads the database every time") if (cached or name.startswith(("load", "contains", "get"))) else None
     # the loop marks every id and commits once after
     seqs = model.sequences([c for c in model.classes if c.name == "LitePreKeyStore"][0], "setAsSent")
     ok = all(s and s[-1][0] == "COMMIT" for s in seqs if any(e[0] == "SQL" for e in s))
